@@ -948,6 +948,10 @@ func (rn *run) serveBackend(kind string, w http.ResponseWriter, req *http.Reques
 	rn.disp = append(rn.disp, d)
 	rn.mu.Unlock()
 
+	if !hd.NoClose {
+		// connect-go, grpc-go and reverse proxies close the request body when they are done with it
+		_ = req.Body.Close()
+	}
 	rn.respond(w, form, codec, herr)
 	if hd.Exit == "panic" {
 		panic("scripted backend panic")
@@ -1440,8 +1444,15 @@ func connectHTTPStatus(code int) int {
 func (rn *run) parseClient(form string, res served) clientObs {
 	w := res.w
 	co := clientObs{Status: w.status, CLen: int(w.clen), BodyLen: len(w.body), ExtraHeads: w.extraHeads,
-		Problems: append([]string{}, w.problems...), Frames: []frameObs{}, Allow: []string{}, Flushed: []int{},
+		Problems: []string{}, Dropped: []string{}, Frames: []frameObs{}, Allow: []string{}, Flushed: []int{},
 		End: endObs{Place: "none", Code: -1, Trl: []string{}, Lost: []string{}, Leak: []string{}}}
+	for _, p := range w.problems {
+		if strings.HasPrefix(p, "invalid-") {
+			co.Dropped = append(co.Dropped, p)
+		} else {
+			co.Problems = append(co.Problems, p)
+		}
+	}
 	h := w.sent
 	if h == nil {
 		h = http.Header{}
